@@ -45,7 +45,9 @@ def _dump(cwd, pkg_fp, target, out, extra=()):
     with open(out + '.tmp', 'w') as fo:
         p = subprocess.run(cmd, cwd=cwd, env=_env(), stdout=fo, stderr=subprocess.PIPE, text=True)
     if p.returncode != 0 or os.path.getsize(out + '.tmp') == 0:
-        raise RuntimeError('MIR dump failed in %s (exit %d):\n%s' % (cwd, p.returncode, p.stderr[-4000:]))
+        e = RuntimeError('MIR dump failed in %s (exit %d):\n%s' % (cwd, p.returncode, p.stderr[-4000:]))
+        e.stderr = p.stderr; e.cwd = cwd
+        raise e
     os.replace(out + '.tmp', out)
 
 
